@@ -812,7 +812,7 @@ def run_unit(desc, loader=None, only=None):
                 k = counts[attr] = counts.get(attr, 0) + 1
                 results.append({"id": f"{label}/ownership/{attr}#{k}/{kind}-owned-by-the-returned-disposable", "verdict": "proved" if ok else "refuted",
                                 "backend": "ownership-analysis", "model": {}, "path": [], "detail": detail, "seconds": 0.0, "kind": "ownership"})
-            if desc.get("prop") == "C03":
+            if desc.get("prop") == "C03" or desc.get("after_emission"):
                 dup = {}
                 for (hname, hline, k, ok, detail) in after_emission_obligations(u, tree):
                     # handlers are named by their function name (+ an ordinal when two nested handlers share a name), not by line
